@@ -335,8 +335,10 @@ class JsonSchemaGenerator:
             if value is None:
                 continue
             properties[name] = value
-            if field.dependencies:
-                # a JSON document holds arrays, not sets; sort to stay identical
+            if field.dependencies and not self.output:
+                # a JSON document holds arrays, not sets; sort to stay identical.
+                # dependencies constrain the input (a provided field needs them provided): published data may hold
+                # a default of this field, or lack a dependency that is not published
                 dependent_required[name] = sorted(field.dependencies)
             if field.is_required(options or self.options):
                 # will count options.ignore_required in
@@ -351,6 +353,11 @@ class JsonSchemaGenerator:
         data.update(properties=properties)
         if required:
             data.update(required=required)
+        # only names this document lists can be asked for
+        dependent_required = {
+            k: [d for d in v if d in properties] for k, v in dependent_required.items()
+        }
+        dependent_required = {k: v for k, v in dependent_required.items() if v}
         if dependent_required:
             data.update(dependentRequired=dependent_required)
         addition = options.addition
